@@ -24,6 +24,7 @@ from engine import build  # noqa: E402
 PY = sys.executable
 KNOWN = os.path.join(VERIF, 'known_findings.json')
 NWORKERS = int(os.environ.get('VERIF_WORKERS', '15'))
+_EXTRA_SCRATCH = []
 
 
 def log(*a):
@@ -216,7 +217,10 @@ def concrete_replay(ob, cex, scratch, ignore_known=True):
     req = dict(ob)
     req['engine'] = 'concrete'
     req['cex'] = cex
-    env = worker_env(scratch, ignore_known=ignore_known)
+    asan = bool(ob.get('_asan_scratch'))
+    if asan:
+        scratch = ob['_asan_scratch']        # obligations of the sanitizer pass are replayed on the sanitizer build
+    env = worker_env(scratch, asan=asan, ignore_known=ignore_known)
     p = subprocess.run([PY, os.path.join(VERIF, 'engine', 'worker.py'), scratch],
                        input=json.dumps(req) + '\n', capture_output=True, text=True, env=env, cwd=VERIF,
                        timeout=300)
@@ -244,6 +248,8 @@ def main(argv=None):
     ap.add_argument('--list', action='store_true')
     ap.add_argument('--no-evidence', action='store_true')
     ap.add_argument('--dump', help='write raw per-obligation results (debugging)')
+    ap.add_argument('--asan', action='store_true', help='also run the sanitizer pass in the quick tier')
+    ap.add_argument('--no-asan', action='store_true')
     a = ap.parse_args(argv)
     tier = 'thorough' if (a.thorough or os.environ.get('VERIF_TIER') == 'thorough') else 'quick'
     seed = int(os.environ.get('VERIF_SEED', '0') or 0)
@@ -271,6 +277,8 @@ def main(argv=None):
     try:
         return _run(a, pid, spec, tier, seed, scratch, binfo, t_start, replay_ob)
     finally:
+        for d_ in _EXTRA_SCRATCH:
+            shutil.rmtree(d_, ignore_errors=True)
         if not a.keep:
             shutil.rmtree(scratch, ignore_errors=True)
         else:
@@ -312,6 +320,33 @@ def _run(a, pid, spec, tier, seed, scratch, binfo, t_start, replay_ob):
             log('  [%d/%d] %s %s %s' % (i, n, v, r['id'], (r.get('detail') or '')[:200] if v != 'confirmed' else ''))
 
     results = run_pool(obs, scratch, env, progress=progress)
+
+    # ---- sanitizer pass (thorough tier of the properties that ask for it): the same obligations on an
+    # ASan+UBSan+assert build of the extension; the sanitizer is the per-path oracle for "stays inside its
+    # memory", the exploration is still the solver's.  A sanitizer abort kills the worker -> journal replay.
+    asan_info = None
+    if (tier == 'thorough' or a.asan) and spec.get('asan') and not a.no_asan:
+        t1 = time.time()
+        try:
+            scratch2, binfo2 = build.build([f for f in spec['families'] if f == 'OO'] or spec['families'][:1],
+                                           hook=spec.get('hook', False), asan=True)
+            _EXTRA_SCRATCH.append(scratch2)
+        except Exception as e:
+            log('ASAN BUILD FAILED:', e)
+            return 2
+        try:
+            sub = [dict(o, id=o['id'] + '@asan', _asan_scratch=scratch2) for o in obs
+                   if o.get('engine') != 'llsym' and ('/core/' in o['id'] or '/l3/' in o['id'] or '/n' in o['id'].rsplit('/', 2)[-2])]
+            sub = sub[:int(os.environ.get('VERIF_ASAN_MAX', '400'))]
+            log('[%s] sanitizer pass: %d obligations on the ASan+UBSan build (%.1fs build)' % (pid, len(sub), binfo2['build_s']))
+            res2 = run_pool(sub, scratch2, worker_env(scratch2, asan=True), progress=progress)
+            # verdicts of the sanitizer pass are handled like the others; keep the build until replays are done
+            results += res2
+            asan_info = {'obligations': len(sub), 'wall_s': round(time.time() - t1, 1), 'build_s': binfo2['build_s']}
+            spec = dict(spec, _asan_scratch=scratch2, _asan_info=asan_info)
+        except Exception:
+            shutil.rmtree(scratch2, ignore_errors=True)
+            raise
 
     if a.dump:
         json.dump([{k: v for k, v in r.items() if k != '_ob'} for r in results], open(a.dump, 'w'), indent=1, default=repr)
@@ -463,6 +498,7 @@ def write_evidence(pid, spec, tier, seed, gen, results, discharged, inconclusive
             'stubs': spec.get('stubs', []),
             'known_findings': kf_lines,
             'build': {k: binfo[k] for k in ('families', 'hook', 'source_sha256', 'build_s')},
+            'sanitizer_pass': spec.get('_asan_info'),
             'exhaustive': False,
         },
         'assumptions': spec.get('assumptions', []) + [
